@@ -38,6 +38,24 @@ def paramSamples (e : Box) (vars : List Nat) : List (List Rat) :=
   let all := choices.foldr (fun c acc => c.flatMap fun t => acc.map (t :: ·)) [[]]
   all.take 27
 
+/-- sample points of a box for refutations: corners (dimension ≤ 4), midpoint, and a few dyadic points -/
+def boxSamples (b : Box) : List (List Rat) :=
+  let ends : List (List Rat) := b.map fun I =>
+    match I with
+    | .mk (.fin a) (.fin c) => if a == c then [a] else [a, c, (a + c) / 2, (3 * a + c) / 4, (a + 3 * c) / 4]
+    | .mk (.fin a) _ => [a]
+    | .mk _ (.fin c) => [c]
+    | _ => [0]
+  let corners := (b.map fun I => match I with
+    | .mk (.fin a) (.fin c) => if a == c then [a] else [a, c]
+    | .mk (.fin a) _ => [a] | .mk _ (.fin c) => [c] | _ => [0]).foldr (fun c acc => c.flatMap fun t => acc.map (t :: ·)) [[]]
+  let diag := (List.range 5).map fun k => ends.map fun e => e.getD k (e.getD 0 0)
+  (corners.take 16) ++ diag
+
+/-- an exactly evaluated point of the box that violates a constraint (the box is not inner) -/
+def innerRefuted (cs : List ((List Dag × Dag) × String)) (b : Box) : Option (List Rat) :=
+  (boxSamples b).find? fun p => Verdict.innerRefutedBy cs b p
+
 /-- every box of a paving with its verdict (C18, resumed search) -/
 def parseItems (s : String) : Option (List Item) :=
   if s == "-" then some [] else
@@ -140,7 +158,8 @@ def opsSolver (op : String) (ins outs : List String) : Option String :=
     let vars ← parseNatList vars
     let zs ← (pts.splitOn "|").mapM parsePoint
     if !(Box.subset e root) then pure "FAIL solution-box-not-inside-the-initial-box" else
-    if !(Cover.innerOk ineqs e) then pure "FAIL inequalities-not-proved-on-the-solution-box" else
+    if !(Cover.innerOk ineqs e) && (innerRefuted ineqs e).isSome then
+      pure "FAIL solution-box-contains-a-point-violating-an-inequality" else
     if zs.any (fun q => Verdict.refutedOutside eqs e u vars q) then
       pure "FAIL known-zero-in-the-unicity-box-outside-the-existence-box" else
     if zs.any (fun p => zs.any fun q => Verdict.refutedTwo eqs e vars p q) then
@@ -178,8 +197,12 @@ def opsSolver (op : String) (ins outs : List String) : Option String :=
     let ss := specs.splitOn "|"
     if ds.length != ss.length then none else
     let b ← parseBox box
-    let ok := Cover.innerOk (List.zip ds ss) b
-    pure (if ok then "ok inner-certified" else "FAIL inner-box-not-certified-by-the-model")
+    -- certified by the model's interval evaluation; refuted by an exactly evaluated infeasible point of the box;
+    -- otherwise undecided (the library may evaluate a simplified expression with fewer roundings than the model)
+    if Cover.innerOk (List.zip ds ss) b then pure "ok inner-certified" else
+    match innerRefuted (List.zip ds ss) b with
+    | some p => pure s!"FAIL inner-box-contains-an-infeasible-point pt={p}"
+    | none => pure "ok inner-uncertified"
   | "solveunknown", [box, eps], _ => do
     let b ← parseBox box
     let eps ← (eps.splitOn ";").mapM parseExt
